@@ -154,7 +154,7 @@ class Folder:
         if isinstance(e, ast.Name):
             return self._resolve(e)
         if isinstance(e, ast.Attribute):
-            if d is not None and d.split(".")[0] in self.env and isinstance(self.env[d.split(".")[0]], Abstract):
+            if d is not None and d.split(".")[0] in self.env:
                 base = self.fold(e.value)
                 if isinstance(base, Abstract) and hasattr(base, e.attr) and not e.attr.startswith("__"):
                     return getattr(base, e.attr)
@@ -163,6 +163,8 @@ class Folder:
 
                     return aobj_member(self, base, e.attr)
                 if isinstance(base, tuple) and hasattr(base, "_fields") and e.attr in base._fields:
+                    return getattr(base, e.attr)
+                if isinstance(base, (int, Fraction)) and not isinstance(base, bool) and e.attr in ("numerator", "denominator"):
                     return getattr(base, e.attr)
                 if d.startswith("self.") and d.count(".") == 1 and self.cls is not None and self.repo is not None:
                     v = self.repo.lookup_class_attr(self.cls, e.attr)
@@ -181,6 +183,8 @@ class Folder:
                 return getattr(base, e.attr)
             if isinstance(base, dict) and e.attr in base:
                 return base[e.attr]
+            if isinstance(base, (int, Fraction)) and not isinstance(base, bool) and e.attr in ("numerator", "denominator"):
+                return getattr(base, e.attr)
             if isinstance(base, Abstract) and (not e.attr.startswith("__") or e.attr == "__name__") and hasattr(base, e.attr):
                 return getattr(base, e.attr)
             if type(base).__name__ == "AObj":
@@ -368,6 +372,8 @@ class Folder:
         if isinstance(r, External):
             if r.dotted in ("builtins.True", "builtins.False", "builtins.None"):
                 return {"True": True, "False": False, "None": None}[r.dotted.split(".")[1]]
+            if r.dotted == "fractions.Fraction":
+                return Fraction  # the exact-rational constructor, as a value (e.g. aliased to a local name)
             if r.dotted == "string.ascii_letters":
                 import string
 
@@ -452,7 +458,11 @@ class Folder:
                 if (isinstance(recv, str) and m == "encode") or (isinstance(recv, (bytes, bytearray)) and m == "decode"):
                     try:
                         return getattr(recv, m)(*[self.fold(a) for a in args])
-                    except (UnicodeError, LookupError) as ex:
+                    except UnicodeError as ex:
+                        from .absint import Raised
+
+                        raise Raised(type(ex).__name__, e)  # what the evaluated program would see
+                    except LookupError as ex:
                         raise Unfoldable("%s: %s" % (unparse(e), ex))
         if e.keywords and name not in ("int", "itertools.product", "sorted", "max", "min") and not (isinstance(e.func, ast.Name) and isinstance(self.env.get(e.func.id), Abstract)):
             raise Unfoldable(unparse(e))
@@ -534,6 +544,16 @@ class Folder:
             return bool(v)
         if name == "round":
             return round(self.fold(args[0]))
+        if name == "float" and len(args) == 1:
+            v = self.fold(args[0])
+            if isinstance(v, (int, float, Fraction, str)) and not isinstance(v, Abstract):
+                try:
+                    return float(v)
+                except (ValueError, OverflowError) as ex:
+                    from .absint import Raised
+
+                    raise Raised(type(ex).__name__, e)
+            raise Unfoldable(unparse(e))
         if name in ("math.ceil", "ceil"):
             return math.ceil(self.fold(args[0]))
         if name in ("math.log2", "log2"):
@@ -552,6 +572,13 @@ class Folder:
         if name in ("set", "frozenset", "tuple", "list"):
             v = self.fold(args[0]) if args else ()
             return {"set": frozenset, "frozenset": frozenset, "tuple": tuple, "list": list}[name](v)
+        if name == "ord" and len(args) == 1:
+            v = self.fold(args[0])
+            if isinstance(v, (str, bytes)) and len(v) == 1:
+                return ord(v)
+            from .absint import Raised
+
+            raise Raised("TypeError", e)
         if name == "str":
             return str(self.fold(args[0]))
         if name == "sum":
@@ -631,6 +658,8 @@ class Folder:
             fv = self.env[e.func.id]
         if isinstance(fv, (_Lambda, _LocalFn)):
             return fv.call(self, [self.fold(a) for a in args])
+        if fv is Fraction:
+            return Fraction(*[self.fold(a) for a in args])
         if isinstance(fv, Abstract) and callable(fv):
             return fv(*[self.fold(a) for a in args], **{k.arg: self.fold(k.value) for k in e.keywords if k.arg})
         if self.repo is not None and self.mod is not None and isinstance(e.func, (ast.Name, ast.Attribute)):
